@@ -423,19 +423,23 @@ def k_case(ctx, rng, case, sc, lines, expect):
         lines.append(line)
         expect.append(dict(kind=kind, obs=obs, tol=tol, floor=floor, info=info, case=case))
 
-    # --- trigger the attenuation calculation exactly once on the fresh beam
+    # --- trigger the attenuation calculation (exactly once on a fresh beam)
     st, v0 = call(beam.density, 0.0, 0.0, 0.0)
-    n_impl = len(sc.rates[0].calls) if sc.rates else 0
+    n_calls = len(sc.rates[0].calls) if sc.rates else 0
+    n_impl = len(dict.fromkeys(sc.points)) if sc.points else n_calls      # distinct axis points sampled
     add('count %s %s' % (f2b(L), f2b(step)), 'count', n_impl, info=dict(length=L, step=step))
     keys = [r.key for r in sc.rates]
     want_keys = [(s_['element'], s_['charge']) for s_ in case['species']]
     add('count %s %s' % (f2b(L), f2b(step)), 'rates-requested', 'ok' if keys == want_keys and not sc.bad_beam_ion else
         'beam_stopping_rate requested for %r (beam ion %r), composition is %r' % (keys, sc.bad_beam_ion[:1], want_keys))
-    if st != 'ok' or n_impl < 2 or n_impl > MAX_NODES or len(sc.rates) != len(case['species']):
-        if n_impl > MAX_NODES:
-            ctx.count('K:implausible-sample-count')
+    if st != 'ok':
+        sc.raised = (st, v0)
         return False
-    n = n_impl
+    if n_impl > MAX_NODES:
+        ctx.count('K:implausible-sample-count')
+    # the oracles below never depend on what the implementation sampled: if the count is unusable (nothing was
+    # recomputed, e.g. a stale cache) the documented count is used
+    n = n_impl if 2 <= n_impl <= MAX_NODES else min(py_count(L, step), MAX_NODES)
     nodes = py_nodes(L, n)
     for i in sorted({0, 1, n - 2, n - 1, rng.randrange(n)}):
         add('node %s %d %d' % (f2b(L), n, i), 'node', [nodes[i]], tol=0.0)
@@ -450,7 +454,8 @@ def k_case(ctx, rng, case, sc, lines, expect):
     dirs = [f2b(v) for v in sc.dir]
     nsp = len(case['species'])
     # --- arguments received by every rate at two nodes
-    for k in sorted({0, rng.randrange(n)}):
+    rates_ok = len(sc.rates) == len(case['species']) and all(len(r.calls) == n for r in sc.rates)
+    for k in (sorted({0, rng.randrange(n)}) if rates_ok else []):
         obs = []
         for r in sc.rates:
             obs += list(r.calls[k])
@@ -874,6 +879,158 @@ def compare(ctx, lines, expect, outs):
             yield e
 
 
+# ----------------------------------------------------------------------------------------------------------------
+# histories: construction forms x parameter changes; after every change the density must be that of the current state
+# ----------------------------------------------------------------------------------------------------------------
+HISTORY_KEYS = ['energy', 'power', 'element', 'sigma', 'divergence', 'length', 'step', 'clamp_sigma', 'beam_tf',
+                'plasma_tf', 'species', 'rates']
+
+
+def apply_change(sc, key, target):
+    """one documented mutation of the live scene towards `target`; updates the scene's current description"""
+    from raysect.core import translate, rotate
+    from cherab.core.atomic import elements
+    cur, beam, att, plasma = sc.cur, sc.beam, sc.att, sc.plasma
+    if key == 'energy':
+        cur['energy'] = target['energy']; beam.energy = cur['energy']
+    elif key == 'power':
+        cur['power'] = target['power']; beam.power = cur['power']
+    elif key == 'element':
+        cur['element'] = target['element']; beam.element = getattr(elements, cur['element'])
+    elif key == 'sigma':
+        cur['sigma'] = target['sigma']; beam.sigma = cur['sigma']
+    elif key == 'divergence':
+        cur.update(divx=target['divx'], divy=target['divy'], divmode=target['divmode'])
+        beam.divergence_x = cur['divx']; beam.divergence_y = cur['divy']
+    elif key == 'length':
+        cur['length'] = target['length']; beam.length = cur['length']
+    elif key == 'step':
+        cur['step'] = target['step']; att.step = cur['step']
+    elif key == 'clamp_sigma':
+        cur['clamp_sigma'] = target['clamp_sigma']; att.clamp_sigma = cur['clamp_sigma']
+    elif key == 'beam_tf':
+        cur['beam_tf'] = list(target['beam_tf']); bt = cur['beam_tf']
+        beam.transform = translate(*bt[:3]) * rotate(*bt[3:])
+    elif key == 'plasma_tf':
+        cur['plasma_tf'] = list(target['plasma_tf']); pt = cur['plasma_tf']
+        plasma.transform = translate(*pt[:3]) * rotate(*pt[3:])
+    elif key == 'species':
+        cur['species'] = json.loads(json.dumps(target['species'])); cur['kind'] = target['kind']
+        plasma.composition = make_species(sc, cur['species'])
+    elif key == 'rates':
+        # same composition, other stopping data: a new provider object is assigned (the documented way to change data)
+        for s_, t_ in zip(cur['species'], target['_rates']):
+            s_['rate'] = list(t_)
+        sc.data = make_data(sc)
+        beam.atomic_data = sc.data
+    else:
+        raise ValueError(key)
+
+
+def history_probe(case):
+    L, sg = case['length'], case['sigma']
+    return [(0.0, 0.0, 0.37 * L), (0.4 * sg, -0.3 * sg, 0.81 * L), (0.0, 0.0, L)]
+
+
+def run_history(ctx, rng, lines, expect, form=None, nchanges=None):
+    """build a scene in a random documented form from a start description, observe, apply random documented changes
+    (observing after each); after every change the density is compared with a *fresh* scene of the current
+    description; finally the full K comparison and all S oracles run on the scene with the history"""
+    final = gen_case(rng, mode=rng.choice([None, None, 'isotopes']))
+    other = gen_case(rng)
+    form = form or rng.choice(FORMS)
+    keys = rng.sample(HISTORY_KEYS, nchanges or rng.randint(1, 5))
+    start = json.loads(json.dumps(final))
+    other['_rates'] = None
+    for k in keys:
+        if k == 'divergence':
+            start.update(divx=other['divx'], divy=other['divy'], divmode=other['divmode'])
+        elif k == 'species':
+            start['species'] = other['species']; start['kind'] = other['kind']
+        elif k == 'rates':
+            pass
+        else:
+            start[k] = other[k]
+    if 'rates' in keys:
+        # start with other rate parameters on whatever composition the scene has when the change is applied
+        final['_rates'] = None
+    sc = build(start, form=form)
+    ctx.count('history:form:' + form)
+    tag = 'form=%s' % form
+    desc = dict(form=form, start=start, changes=[])
+
+    def check(after):
+        """density of the scene with the history vs a fresh scene of the same description"""
+        ref = build(sc.cur)
+        for (x, y, z) in history_probe(sc.cur):
+            st, got = call(sc.beam.density, x, y, z)
+            want = ref.beam.density(x, y, z)
+            ctx.count('history:compared')
+            if st != 'ok' or not close(got, want, 1e-9, 1e-300):
+                return ('C04:history:%s:density-not-current-after:%s' % (tag, after),
+                        '%s, then %s: Beam.density(%r,%r,%r) = %r, a fresh beam with the current parameters gives %r'
+                        % (form, ' > '.join(desc['changes']) or 'construction', x, y, z, got, want))
+        return None
+
+    bad = check('construction')
+    order = list(keys)
+    rng.shuffle(order)
+    for k in order:
+        if bad:
+            break
+        if k == 'rates':
+            tgt = dict(_rates=[[10 ** rng.uniform(-14.0, -12.3), rng.uniform(-0.5, 1.0), rng.uniform(-0.5, 1.0)]
+                               for _ in sc.cur['species']])
+        else:
+            tgt = final
+        sc.points.clear(); del sc.rates[:]; del sc.bad_beam_ion[:]
+        apply_change(sc, k, tgt)
+        desc['changes'].append(k)
+        desc.setdefault('after', []).append(json.loads(json.dumps(sc.cur)))
+        ctx.count('history:change:' + k)
+        bad = check(k)
+    cur = json.loads(json.dumps(sc.cur))
+    ctx.case(key=json.dumps(dict(form=form, start=start, changes=desc['changes']), sort_keys=True, default=str))
+    if bad:
+        return bad[0], bad[1], dict(history=desc, current=cur)
+    # full K + S on the scene with the history, geometry for the oracles taken from a fresh scene
+    ref = build(cur)
+    finish_scene(sc, cur, geometry_from=ref)
+    if k_case(ctx, rng, cur, sc, lines, expect):
+        for sg_, why in s_case(ctx, rng, cur, sc):
+            return ('C04:history:%s:%s' % (tag, sg_.split(':', 1)[1]), form + ', then ' + ' > '.join(desc['changes']) + ': ' + why,
+                    dict(history=desc, current=cur))
+    elif getattr(sc, 'raised', None):
+        return ('C04:history:%s:density-raises' % tag, 'Beam.density raised %s: %s' % sc.raised, dict(history=desc, current=cur))
+    return None
+
+
+def replay_history(ctx, hist):
+    """re-execute a stored history (form, start description, changes with the descriptions reached after each)"""
+    sc = build(hist['start'], form=hist['form'])
+    done = []
+
+    def check(after):
+        ref = build(sc.cur)
+        for (x, y, z) in history_probe(sc.cur):
+            st, got = call(sc.beam.density, x, y, z)
+            want = ref.beam.density(x, y, z)
+            if st != 'ok' or not close(got, want, 1e-9, 1e-300):
+                return ('C04:history:form=%s:density-not-current-after:%s' % (hist['form'], after),
+                        '%s, then %s: Beam.density(%r,%r,%r) = %r, a fresh beam with the current parameters gives %r'
+                        % (hist['form'], ' > '.join(done) or 'construction', x, y, z, got, want))
+        return None
+    bad = check('construction')
+    for k, after in zip(hist['changes'], hist.get('after', [])):
+        if bad:
+            break
+        tgt = dict(after, _rates=[s_['rate'] for s_ in after['species']])
+        apply_change(sc, k, tgt)
+        done.append(k)
+        bad = check(k)
+    return bad
+
+
 def load_corpus():
     import glob
     import os
@@ -927,10 +1084,22 @@ def run(ctx):
             deep = i < len(corpus) or (ctx.tier == 'thorough' and i % 10 == 0)
             for sg_, why in s_case(ctx, rng, case, sc, deep=deep):
                 report(ctx, rng, case, sg_, why)
+        elif getattr(sc, 'raised', None):
+            ctx.fail('C04:density-raises:%s' % sc.raised[0], 'Beam.density(0,0,0) on a fresh valid beam raised %s: %s' % sc.raised, dict(case=case))
         ctx.count('case:' + case['kind']); ctx.count('div:' + case['divmode']); ctx.count('step:' + case['stepmode'])
         ctx.count('clamp:%s' % case['clamp']); ctx.count('species:%d' % len(case['species']))
         ctx.case(key=json.dumps(case, sort_keys=True) if ok else None,
                  sample=dict(case=case) if i < 2 else None)
+    # ---- histories: every construction form, then random forms and change sequences
+    nhist = ctx.n(70, 1200)
+    for i in range(nhist):
+        if len(ctx.failing) + len(ctx.known_hits) >= MAX_SIGNATURES or time.time() - t_start > 0.9 * budget:
+            ctx.count('stopped-early:histories')
+            break
+        res = run_history(ctx, rng, lines, expect, form=FORMS[i] if i < len(FORMS) else None,
+                          nchanges=3 if i < len(FORMS) else None)
+        if res:
+            ctx.fail(res[0], res[1], res[2])
     outs = ctx.driver(lines)
     bad = list(compare(ctx, lines, expect, outs))
     # a broken correspondence with no failing input yet: search the implementation on (at most 3 of) the disagreeing
@@ -960,6 +1129,12 @@ def replay(ctx, path):
         d = b.get('detail')
         if isinstance(d, dict) and isinstance(d.get('case'), dict) and d['case'] not in cases:
             cases.append(d['case'])
+    hist = r['replay'].get('history') if isinstance(r.get('replay'), dict) else None
+    if hist:
+        print('replaying a history: %s, then %s' % (hist['form'], ' > '.join(hist['changes'])))
+        res = replay_history(ctx, hist)
+        if res:
+            ctx.fail(res[0], res[1], dict(history=hist))
     print('replaying %d configuration(s) from %s' % (len(cases), path))
     ctx.rule = 'replay of stored configurations'
     ctx.lean_check(['Cherab.Props.C04'], 'Cherab/Audit/C04.lean')
